@@ -127,7 +127,7 @@ Definition top_xv (g : graph) (consts : list (id * V)) (ins : list input) : id -
 Definition run_top (g : graph) (S : sem) (y : strategy) (consts : list (id * V)) (ins : list input)
            (plan outs : list id) :=
   exec_from g S y (top_ext g consts ins)
-            (fun v => match find_input ins v with Some i => i_owned i | None => false end)
+            (fun v => match find_input ins v with Some _ => true | None => false end)
             (top_state g consts ins) plan outs.
 
 Definition naive_top (g : graph) (S : sem) (consts : list (id * V)) (ins : list input)
